@@ -82,8 +82,8 @@ func set(names ...string) map[string]bool {
 func genFor(prop, tier string, seed int64, phase string) {
 	q := tier == "quick"
 	switch prop {
-	case "C01", "C02", "C03", "C05", "C08", "C15", "C04", "C10", "C11":
-		disturbOn = true
+	case "C01", "C02", "C03", "C05", "C08", "C15", "C04", "C10", "C11", "C09", "C14", "C16":
+		disturbOn = phase != "extreme"
 	}
 	switch prop {
 	case "C01", "C02", "C03", "C05", "C15":
